@@ -41,7 +41,7 @@ fn main() {
                 "C13flat" => flat::run(seed, n, out, 13),
                 "C19" => c19::run(seed, n, out),
                 "C11" => polys::run_c11(seed, n, out),
-                "C12" => polys::run_c12(seed, n, out),
+                "C12" => polys::run_c12(seed, n, out, !args[6..].iter().any(|a| a == "--nocoq")),
                 "C20" => polys::run_c20(seed, n, out),
                 "C17" => c17::run(seed, n, out),
                 "C02quadric" | "C03quadric" | "C13quadric" => quadric::run(prop, seed, n, out),
